@@ -153,12 +153,12 @@ def build_jobs(ck):
         tlines = gens.lines(tr)
         small = [['a']] if rng.random() < 0.3 else None
         # ---- baseline
-        seed, p = rng.randint(1, 999), rng.choice([0.0, 0.5, 1.0, 1.5])
-
-        def fb(plines=plines, seed=seed, p=p):
-            random.seed(seed)
-            return fmt(baseline.segment([l + '\n' for l in plines], probability=p))
-        jobs.append(Job('baseline', 'wordseg.algos.baseline', ['-q', '-r', str(seed), '-P', str(p), '@in.txt'], {'in.txt': fmt(plines)}, expect(fb)))
+        # (seed 0 is a seed like any other: "-r 0" must give random.seed(0), not an unseeded run)
+        for seed, p in ((rng.randint(1, 999), rng.choice([0.0, 0.5, 1.0, 1.5])), (0, rng.choice([0.2, 0.5, 0.8]))):
+            def fb(plines=plines, seed=seed, p=p):
+                random.seed(seed)
+                return fmt(baseline.segment([l + '\n' for l in plines], probability=p))
+            jobs.append(Job('baseline', 'wordseg.algos.baseline', ['-q', '-r', str(seed), '-P', str(p), '@in.txt'], {'in.txt': fmt(plines)}, expect(fb)))
         # ---- tp
         for thr in ('relative', 'absolute'):
             dep = rng.choice(['ftp', 'btp', 'mi'])
